@@ -560,7 +560,7 @@ def impl_realign_q(c):
 def check_realign_q(ctx, cases):
     reqs = [dict(op="c06.realign_q", variant=c["variant"], restricted=c["restricted"], query=c["query"], cigar=c["cigar"], i=c["i"],
                  consumed=c["consumed"], query_pos=c["query_pos"], reference=c["reference"], overhang=c["overhang"],
-                 affine=c["affine"], asis=ASIS) for c in cases]
+                 affine=_maff(c["affine"]), asis=ASIS) for c in cases]
     outs = ctx.model.ask_many(reqs)
     for c, m in zip(cases, outs):
         impl = impl_realign_q(c)
@@ -589,6 +589,11 @@ KEY_FILTER_LOST = "usable-alignment-filtered"
 KEY_FILTER_LEAK = "filtered-alignment-contributes"
 # proposed repairs that change the modelled behaviour (see notes/C06.md): C06_FIXED=F40,F41 compares with the repaired model
 FIXED = [x for x in os.environ.get("C06_FIXED", "").split(",") if x]
+
+
+def _maff(a):
+    """affine parameters for the model: a fourth element 1 selects the repaired quality sign (proposed F42)"""
+    return None if a is None else list(a[:3]) + ([1] if "F42" in FIXED else [])
 
 
 def _tag(a, t, default):
@@ -682,7 +687,7 @@ def run_filter_case(ctx, case, label):
         finally:
             reader.close()
         # ---- model
-        mcfg = dict(cfg, skip_noseq="F40" in FIXED, tolerate_norg="F41" in FIXED)
+        mcfg = dict(cfg, affine=_maff(cfg["affine"]), skip_noseq="F40" in FIXED, tolerate_norg="F41" in FIXED)
         common = dict(cfg=mcfg, sources=model_sources(bams), sample=sample, regions=case["regions"], asis=ASIS)
         mu, mr = ctx.model.ask_many([dict(op="c06.usable", **common),
                                      dict(op="c06.read", variants=vjson, reference=case["ref"] if mode == "ref" else None, **common)])
@@ -725,7 +730,7 @@ def run_filter_case(ctx, case, label):
                 ctx.fail(f"alignment {r['name']} ({r['role']}, flag {r['flag']}, mapq {r['mapq']}, RG {r['rg']}) reaches allele "
                          f"detection although it is secondary / unmapped / duplicate / supplementary / below the mapq threshold / of "
                          f"another sample", dict(where, record=r), key=KEY_FILTER_LEAK)
-            if not drop and in_region and key not in usable_keys and r["cigar"] is not None:
+            if not drop and in_region and key not in usable_keys and r["cigar"] is not None and r["seq"] is not None:
                 ctx.fail(f"alignment {r['name']} ({r['role']}, flag {r['flag']}, mapq {r['mapq']} >= {cfg['mapq']}) is filtered although "
                          f"it is a primary (or admitted) alignment of the sample", dict(where, record=r), key=KEY_FILTER_LOST)
             if r["role"].startswith("poison") and drop:
@@ -843,7 +848,7 @@ def run_scenario(ctx, case, label):
                 elif mode == "affine":
                     reqs.append(dict(op="c06.detect_ref_q", variants=vjson, restricted=None, j=0, ref_start=a.reference_start,
                                      cigar=[list(x) for x in a.cigartuples], query=a.query_sequence, reference=case["ref"], overhang=10,
-                                     affine=AFFINE_DEFAULT, asis=ASIS))
+                                     affine=_maff(AFFINE_DEFAULT), asis=ASIS))
                 else:
                     reqs.append(dict(op="c06.detect_noref", variants=vjson, first=0, ref_start=a.reference_start,
                                      cigar=[list(x) for x in a.cigartuples], query=a.query_sequence,
